@@ -23,15 +23,6 @@ CHECKS = {
  "C06": ("SIM-SYS", "seeded search over schedules, all four queue types, first-time threads next to backend stalls, recording and real file sinks; the oracle is evaluated in the very scheduler step in which flush_log() returns (sink records, flush marks, file read back through a fresh descriptor); liveness judged only in the fair phase; sampling, not proof", SIMSYS_NOTE + "; cross-thread clause with a TSC logger involved demanded only beyond RdtscClock's 3.4 us resync window", TECH),
 }
 
-ENGINES = [
- {"name": "SIM-SYS", "path": "simsys/", "serves_properties": sorted(k for k, v in CHECKS.items() if v[0] in ("SIM-SYS", "SIM-Q+SIM-SYS")),
-  "kind_free_text": "whole real quill library in one forked process per run under a seeded one-baton scheduler over real pthreads, virtual clock, interposed libc/pthread, recording sinks, fault plan; seeded search + ddmin minimisation + replay gate"},
- {"name": "SIM-Q", "path": "simq/", "serves_properties": sorted(k for k, v in CHECKS.items() if v[0] in ("SIM-Q", "SIM-Q+SIM-SYS")),
-  "kind_free_text": "the two real SPSC queue classes between a producer and a consumer fibre under a seeded scheduler with an operational C++11 weak-memory model for atomics and a happens-before race detector on payload bytes"},
- {"name": "SIM-COMP", "path": "simcomp/", "serves_properties": sorted(k for k, v in CHECKS.items() if v[0] == "SIM-COMP"),
-  "kind_free_text": "single components (TimestampFormatter, RotatingFileSink) driven by a simulated clock with jump faults and a scratch directory with restart / foreign-file events, against reference models"},
-]
-ENGINES = [e for e in ENGINES if e["serves_properties"]]
 
 COMP_NOTE = ("trusted: libc time functions (shared by oracle and code under test), tmpfs, the reference models; single-threaded by design — the "
              "simulated elements are the clock history and the directory state across restarts")
@@ -49,6 +40,16 @@ CHECKS.update({
  "C01": ("SIM-Q", "seeded search over interleavings at every atomic operation x legal stale atomic-load values (operational C++11 release/acquire/relaxed model) x integer types (incl. uint8_t/uint16_t so position counters wrap) x capacities x record-size sequences x reader publish thresholds, on the unmodified BoundedSPSCQueueImpl<T>; oracle: FIFO model (lost / duplicated / reordered / torn / visible before commit), space and offset checks on every grant, happens-before race detector on every payload byte; sampling, not proof", Q_NOTE, Q_TECH),
  "C02": ("SIM-Q", "as C01 on the unmodified UnboundedSPSCQueue with real mmap'd nodes: growth by one or several doublings, growth refused at the maximum, records larger than the maximum (must throw), shrink requests, repeated grow/shrink cycles; additionally: reported switch capacities vs the producer's node sequence, capacity never above the maximum, payload only inside live mappings, atomics of deleted nodes never touched again, every mapping freed; sampling, not proof", Q_NOTE, Q_TECH),
 })
+
+ENGINES = [
+ {"name": "SIM-SYS", "path": "simsys/", "serves_properties": sorted(k for k, v in CHECKS.items() if v[0] in ("SIM-SYS", "SIM-Q+SIM-SYS")),
+  "kind_free_text": "whole real quill library in one forked process per run under a seeded one-baton scheduler over real pthreads, virtual clock, interposed libc/pthread, recording sinks, fault plan; seeded search + ddmin minimisation + replay gate"},
+ {"name": "SIM-Q", "path": "simq/", "serves_properties": sorted(k for k, v in CHECKS.items() if v[0] in ("SIM-Q", "SIM-Q+SIM-SYS")),
+  "kind_free_text": "the two real SPSC queue classes between a producer and a consumer fibre under a seeded scheduler with an operational C++11 weak-memory model for atomics and a happens-before race detector on payload bytes"},
+ {"name": "SIM-COMP", "path": "simcomp/", "serves_properties": sorted(k for k, v in CHECKS.items() if v[0] == "SIM-COMP"),
+  "kind_free_text": "single components (TimestampFormatter, RotatingFileSink) driven by a simulated clock with jump faults and a scratch directory with restart / foreign-file events, against reference models"},
+]
+ENGINES = [e for e in ENGINES if e["serves_properties"]]
 
 NA = [
  {"property_id": "C12", "reason": "pure function of (pattern, attribute values, message): no schedule, clock, fault, I/O or shared state for a simulator to control (DESIGN.md section 5)"},
